@@ -97,6 +97,20 @@ CHECKS = {
         units=[rapid("TestC06_History", 6000, 400000)],
         min_share=dict(any={"ack_after_2_later_markers": ["histories", 0.2], "outside_snapshot": ["histories", 0.05], "backlog_resent": ["histories", 0.1]}),
     ),
+    "C12": dict(
+        level="fault_enumeration",
+        rule="rapid op-lists on the Layer-A history engine with `end` ops: every cause of the alphabet {socket closed, backfill failed, state "
+             "changed, too slow, disconnected (also wrapped with %w), stream closed, filter empty, lost privileges, generic, clean end} injected "
+             "through Observer.End on any assigned vBucket at any point between deliveries/acks/saves, repeated ends of one vBucket, a small share "
+             "with the first reopen attempt refused (library retries after 1 s). Oracle: transient => exactly one successful OpenStream(vb) from "
+             "the latest settled position (seq == model, tuple member), later events delivered; other => no reopen; active count == assigned - "
+             "finally ended after every end; stop channel closed iff all ended (both directions). non-trivial = a transient end after events, a "
+             "final end, and a vBucket ending twice in one history",
+        assumptions=HIST_ASSUME + ["ends injected inside Close are outside the property's domain and not generated",
+                                   "a server does not send two final ends for one stream (each final end is the last event of that vBucket)"],
+        units=[rapid("TestC12_History", 4000, 200000, 16, 16), rapid("TestC12_Finite", 1500, 60000)],
+        min_share=dict(any={"end_transient_after_events": ["histories", 0.3], "client_stopped": ["histories", 0.03], "vb_ended_twice": ["histories", 0.2]}),
+    ),
     "C17": dict(
         level="exploration",
         rule="rapid: (a) config.Dcp with a generated subset (density itself drawn) of 46 options explicitly set to non-zero values from "
